@@ -123,7 +123,8 @@ def gen_run(rng, widen, thorough=False):
         ep_len = 4  # a rollout of k episodes lasts until k episodes ended, whatever total_timesteps says
     return {
         "kind": "run", "algo": algo, "n_envs": n_envs, "train_freq": train_freq, "gradient_steps": gradient_steps,
-        "interval": interval, "delay": delay, "tau": tau, "learning_starts": rng.weighted([(0, 4), (2, 1), (5, 1)]),
+        "interval": interval, "delay": delay, "tau": tau, "learning_starts": rng.weighted([(0, 4), (2, 1), (5, 1), (12, 1)]),
+        "pre_perturb": rng.chance(0.4),
         "batch_size": rng.randint(2, 4), "bn": rng.chance(0.35), "learns": learns, "ep_len": ep_len,
         "lr": rng.choice([0.01, 0.03, 0.05]), "seed": rng.randint(0, 2**31 - 1),
         "ent_auto": rng.chance(0.6), "share": rng.chance(0.25), "n_critics": rng.weighted([(1, 1), (2, 2)]),
@@ -572,6 +573,17 @@ def run_run(ctx, case):
     tmp = None
     try:
         model = make_model(case, env)
+        if case.get("pre_perturb"):
+            # online weights that arrive "some other way" than by gradient steps (set_parameters / load_state_dict of
+            # trained weights into a fresh model): online and target differ BEFORE the first gradient step, so a target
+            # update that is due during warm-up is observable (seeded change C08-i)
+            g = th.Generator().manual_seed(int(case["seed"]) % (2**31) + 17)
+            pol = model.policy
+            online = [pol.q_net] if case["algo"] == "dqn" else [pol.actor, pol.critic]
+            with th.no_grad():
+                for mod in online:
+                    for prm in mod.parameters():
+                        prm.add_(th.randn(prm.shape, generator=g) * 0.25)
         probe = Probe(case, model)
         probe.rec("init")
         segments = []  # ("events", list) | ("reload", snapshot)
@@ -898,6 +910,8 @@ def check_cases(ctx, cases):
             rep.count(f"gradient_steps={case['gradient_steps']}")
             rep.count("train_freq:" + case["train_freq"][1])
             rep.count("bn" if case["bn"] else "no_bn")
+            if case.get("pre_perturb"):
+                rep.count("online_weights_replaced_before_learn")
             if case.get("save_load"):
                 rep.count("save_load")
             if len(case["learns"]) > 1:
